@@ -91,9 +91,9 @@ void wl_rt_start(wl_rt *rt, int flags)
     if (nes == 1 || (flags & WL_RT_PRIVATE_ONLY))
         topo = 0;
     else if (flags & WL_RT_NEED_SHARED)
-        topo = 1 + (int)plan_n(2);
+        topo = (flags & WL_RT_NO_TOPO2) ? 1 : 1 + (int)plan_n(2);
     else
-        topo = (int)plan_n(3);
+        topo = (int)plan_n((flags & WL_RT_NO_TOPO2) ? 2 : 3);
     rt->topo = topo;
     ABT_OK(ABT_xstream_self(&rt->xs[0]));
     ABT_pool shared = ABT_POOL_NULL;
@@ -107,6 +107,7 @@ void wl_rt_start(wl_rt *rt, int flags)
         ABT_pool ps[2];
         int n = 0;
         ps[n++] = mkpool(rt, flags, 0);
+        rt->es_first_pool[0] = rt->npools - 1;
         if (topo != 0)
             ps[n++] = shared;
         rt->sched_kind[0] = pick_sched(flags);
@@ -118,13 +119,17 @@ void wl_rt_start(wl_rt *rt, int flags)
         rt->pools[i] = p;
         rt->pool_es[i] = 0;
         rt->pool_kind[i] = 0;
+        rt->es_first_pool[0] = i;
         rt->sched_kind[0] = -1;
     }
     for (int e = 1; e < nes; e++) {
         ABT_pool ps[2];
         int n = 0;
-        if (topo == 0 || topo == 2)
+        if (topo == 0 || topo == 2) {
             ps[n++] = mkpool(rt, flags, e);
+            rt->es_first_pool[e] = rt->npools - 1;
+        } else
+            rt->es_first_pool[e] = 0; /* the shared pool is pools[0] */
         if (topo != 0)
             ps[n++] = shared;
         rt->sched_kind[e] = pick_sched(flags);
